@@ -154,6 +154,18 @@ CHECKS = {
        'order. Semantic equality of generated code after arbitrary transformation sequences is not decided.',
   note='Trusted: specs/predpp.json; sympy class names of relational operators.',
   ref='DESIGN.md §2 C02'),
+ 'C04': dict(
+  technique='sibling-method agreement inside the record classes (multiplicity handling of (value)xn in readers vs '
+            'writers), idiom-shape check of FIX token synchronisation, node-versus-value comparison lint, and a '
+            'lexer/parser table cross-check: token sentences enumerated from the LALR tables of the parameter-record '
+            'grammars, spelled with canonical lexemes, must be accepted by lark built from the same grammar',
+  text='P1-P3 decide necessary conditions of "edits are written back exactly" for every layout with repeats and FIX '
+       'flags (each violation has a concrete record as witness); A5 quantifies over every (lexer state, token, next '
+       'token) context of the grammars (about 1400 witness sentences), i.e. over all documented layouts rather than '
+       'the literal records of the test files. Numeric scale conversions and the LCS edit script are not decided.',
+  note='A5 runs lark (the grammar compiler) on sentences derived from its own tables; pharmpy is not executed. '
+       'Trusted: lark scanner ordering as implemented in the installed version.',
+  ref='DESIGN.md §2 C04, C01-A5'),
 }
 NA = {}
 
